@@ -32,9 +32,19 @@ Definition rm_boot (c : config) (nodes : list node) : list node :=
   filter (fun n => valid_node_addr (ip (n_addr n)) (port (n_addr n)) &&
                    (c_no_security c || id_secure_impl (n_id n) (ip (n_addr n)))) nodes.
 
-Definition rm_pass (c : config) (now : Z) (answering : list (N * (bytes * N))) (nodes : list node)
+(* contacts of [fans] answer find_node (with an empty node list): the bootstrap that precedes the pass asks every
+   entry the filter lets through, so those of them that answer have just responded when the pass begins (a response
+   also clears the failed flag); fewer than K contacts answer, so no traversal's result set ever fills and every seed
+   is asked *)
+Definition rm_boot_effect (c : config) (now : Z) (fans : list (N * (bytes * N))) (nodes : list node) : list node :=
+  map (fun n => if existsb (fun m => N.eqb (n_id m) (n_id n) && key_eqb (addr_key (n_addr m)) (addr_key (n_addr n))) (rm_boot c nodes)
+                   && rm_answers fans n
+                then apply_update now UResponse n else n) nodes.
+
+Definition rm_pass (c : config) (now : Z) (answering fans : list (N * (bytes * N))) (nodes : list node)
   : list phase * list node :=
-  pass id_secure_impl c now (rm_answers answering) refresh_silent nodes.
+  pass id_secure_impl c now (rm_answers answering) (refresh_answering id_secure_impl c now (rm_answers fans))
+       (rm_boot_effect c now fans nodes).
 
 (* tag 0 ping / 1 refresh / 2 break / 3 done *)
 Definition rm_phase_view (p : phase) : N * (nat * list node) :=
